@@ -384,40 +384,66 @@ impl LightClientProtocol {
         let new_total_difficulty = new_prove_state.get_last_header().total_difficulty();
         if new_total_difficulty > old_total_difficulty {
             let reorg_last_headers = new_prove_state.get_reorg_last_headers();
-            if reorg_last_headers.is_empty() {
-                let prev_last_header_number: BlockNumber = prev_last_header.raw().number().unpack();
+            let prev_last_header_number: BlockNumber = prev_last_header.raw().number().unpack();
+            if reorg_last_headers.is_empty() && prev_last_header_number == 1 {
                 // If previous last header is block#1, that means there are no previous last n
                 // headers, so we could NOT distinguish whether the block#1 is a fork block or not.
                 // For safety, just remove the block#1.
-                if prev_last_header_number == 1 {
-                    info!("rollback to block#1 since previous last header number is 1");
-                    let mut matched_blocks = self.peers.matched_blocks().write().expect("poisoned");
-                    while let Some((start_number, _, _)) = self.storage.get_latest_matched_blocks()
+                info!("rollback to block#1 since previous last header number is 1");
+                let mut matched_blocks = self.peers.matched_blocks().write().expect("poisoned");
+                while let Some((start_number, _, _)) = self.storage.get_latest_matched_blocks() {
+                    if start_number > 0 {
+                        self.storage.remove_matched_blocks(start_number);
+                    }
+                }
+                self.storage.rollback_to_block(1);
+                matched_blocks.clear();
+            } else {
+                let mut old_last_headers: HashMap<_, _> =
+                    self.storage.get_last_n_headers().into_iter().collect();
+                // `None`: not a fork; `Some(None)`: a fork which shares no remembered header.
+                let fork_number = if reorg_last_headers.is_empty() {
+                    // A fork which is shorter than the remembered headers is answered without
+                    // reorg headers, since the start block of the request (an older remembered
+                    // header) is in the new chain too: it is only visible in the new last headers.
+                    old_last_headers
+                        .insert(prev_last_header_number, prev_last_header.calc_header_hash());
+                    let mut shared_number = None;
+                    let mut is_forked = false;
+                    for header in new_prove_state
+                        .get_last_headers()
+                        .iter()
+                        .chain(Some(new_prove_state.get_last_header().header()))
                     {
-                        if start_number > 0 {
-                            self.storage.remove_matched_blocks(start_number);
+                        if let Some(hash) = old_last_headers.get(&header.number()) {
+                            if hash == &header.hash() {
+                                shared_number = Some(header.number());
+                            } else {
+                                is_forked = true;
+                            }
                         }
                     }
-                    self.storage.rollback_to_block(1);
-                    matched_blocks.clear();
-                }
-            } else {
-                let old_last_headers: HashMap<_, _> =
-                    self.storage.get_last_n_headers().into_iter().collect();
-                let fork_number = reorg_last_headers.iter().rev().find_map(|reorg_header| {
-                    let number = reorg_header.number();
-                    old_last_headers
-                        .get(&number)
-                        .map(|hash| {
-                            if &reorg_header.hash() == hash {
-                                Some(number)
-                            } else {
-                                None
-                            }
-                        })
-                        .unwrap_or_default()
-                });
-                if let Some(to_number) = fork_number {
+                    if is_forked {
+                        Some(shared_number)
+                    } else {
+                        None
+                    }
+                } else {
+                    Some(reorg_last_headers.iter().rev().find_map(|reorg_header| {
+                        let number = reorg_header.number();
+                        old_last_headers
+                            .get(&number)
+                            .map(|hash| {
+                                if &reorg_header.hash() == hash {
+                                    Some(number)
+                                } else {
+                                    None
+                                }
+                            })
+                            .unwrap_or_default()
+                    }))
+                };
+                if let Some(Some(to_number)) = fork_number {
                     debug!("fork to number: {}", to_number);
                     let mut matched_blocks = self.peers.matched_blocks().write().expect("poisoned");
                     let mut start_number_opt = None;
@@ -447,7 +473,7 @@ impl LightClientProtocol {
                     info!("rollback to block#{}", rollback_to);
                     self.storage.rollback_to_block(rollback_to);
                     matched_blocks.clear();
-                } else {
+                } else if fork_number.is_some() {
                     warn!("long fork detected");
                     return Ok(false);
                 }
